@@ -26,6 +26,9 @@ func c12BindOf(site ssa.CallInstruction, callee *ssa.Function) c12Bind {
 		return b
 	}
 	args := site.Common().Args
+	if site.Common().IsInvoke() { // interface method call: the receiver is the first parameter
+		args = append([]ssa.Value{site.Common().Value}, args...)
+	}
 	for i, pa := range callee.Params {
 		if i < len(args) {
 			b[pa] = args[i]
